@@ -8,6 +8,7 @@ open LB
 structure St where
   s : Sys := { m := Mem.create [] }
   dead : Bool := false       -- a modelled panic happened: the rest of the case is not comparable
+  ps : Option PSys := none   -- shadow: the same operations through `pstep` (the system the C09 slot theorems are about)
 
 def parseCls (w : String) : Nat × Nat :=
   match w.splitOn ":" with
@@ -51,10 +52,11 @@ def readerOp (d : St) (x : String) (n : Nat)
       let s2 := setS { s1 with m := m' } x { st with recv := r' }
       ({ d with s := s2 }, out ++ suffix s2 x)
 
-def step (d : St) (line : String) : St × String :=
+def step0 (d : St) (line : String) : St × String :=
   if d.dead then (d, "dead") else
   match Drv.words line with
-  | "init" :: cls => ({ s := { m := Mem.create (cls.map parseCls), held := cls.map (fun _ => []) } }, "ok")
+  | "init" :: cls => ({ s := { m := Mem.create (cls.map parseCls), held := cls.map (fun _ => []) },
+                        ps := some { m := Mem.create (cls.map parseCls) } }, "ok")
   | ["wb", x, h] =>
     let st := getS d.s x
     match st.send.writeBytes d.s.m (unhex h) with
@@ -101,6 +103,11 @@ def step (d : St) (line : String) : St × String :=
     let (m', st') := reuse d.s.m st
     let s' := setS { d.s with m := m' } x st'
     ({ d with s := s' }, "ok" ++ suffix s' x)
+  | ["cls", x] =>
+    let st := getS d.s x
+    let m' := closeStream d.s.m st
+    let s' := setS { d.s with m := m' } x { inFallback := st.inFallback }
+    ({ d with s := s' }, "ok" ++ suffix s' x)
   | ["len", x] => (d, "ok" ++ suffix d.s x)
   | ["take", c, k] =>
     let ci := Drv.nat! c
@@ -121,5 +128,49 @@ def step (d : St) (line : String) : St × String :=
     let s' := { d.s with m := m', held := d.s.held.modify ci (fun l => l.drop (Drv.nat! k)) }
     ({ d with s := s' }, s!"ok {back.length} free={freeStr m'}")
   | _ => bad d
+
+/-! the shadow: the line's meaning as `POp`s of the stream-pair system -/
+
+def sideB (x : String) : Bool := x != "a"
+
+def shadowReader (p : PSys) (x : String) (n : Nat) (op : POp) : Option PSys :=
+  let b := sideB x
+  let p1 := if (p.get b).recv.len ≥ n then some p else pstep p (.more b)
+  match p1 with
+  | none => none
+  | some p1 => if (p1.get b).recv.len ≥ n then pstep p1 op else some p1
+
+/-- `some (some p')`: the line maps to operations of the system; `some none`: it does not (shadow ends); `none`: panic -/
+def shadowStep (p : PSys) (line : String) : Option (Option PSys) :=
+  match Drv.words line with
+  | ["wb", x, h] => (pstep p (.write (sideB x) (unhex h))).map some
+  | ["wbyte", x, b] => (pstep p (.writeByte (sideB x) (Drv.nat! b))).map some
+  | ["flush", x] => (pstep p (.flush (sideB x))).map some
+  | ["rb", x, n] => (shadowReader p x (Drv.nat! n) (.readBytes (sideB x) (Drv.nat! n))).map some
+  | ["pk", x, n] => (shadowReader p x (Drv.nat! n) (.peek (sideB x) (Drv.nat! n))).map some
+  | ["dc", x, n] => (shadowReader p x (Drv.nat! n) (.discard (sideB x) (Drv.nat! n))).map some
+  | ["rbyte", x] => (shadowReader p x 1 (.readByte (sideB x))).map some
+  | ["rs", x, n] => (shadowReader p x (Drv.nat! n) (.readString (sideB x) (Drv.nat! n))).map some
+  | ["rd", x, n] => if Drv.nat! n = 0 then some (some p) else (shadowReader p x 1 (.readInto (sideB x) (Drv.nat! n))).map some
+  | ["rel", x] => (pstep p (.release (sideB x))).map some
+  | ["cls", x] => (pstep p (.close (sideB x))).map some
+  | ["len", _] => some (some p)
+  | _ => some none
+
+def step (d : St) (line : String) : St × String :=
+  let (d', out) := step0 d line
+  if d.dead || d'.dead then (d', out) else
+  match Drv.words line with
+  | "init" :: _ => (d', out)
+  | _ =>
+    match d.ps with
+    | none => ({ d' with ps := none }, out)
+    | some p =>
+      match shadowStep p line with
+      | none => ({ d' with ps := none }, out ++ " shadow-panic")
+      | some none => ({ d' with ps := none }, out)
+      | some (some p') =>
+        if p'.m == d'.s.m && p'.a == d'.s.a && p'.b == d'.s.b then ({ d' with ps := some p' }, out)
+        else ({ d' with ps := none }, out ++ " shadow-mismatch")
 
 end Drv.C06
